@@ -353,6 +353,10 @@ done:
 }
 
 #define PSEUDO_INCONCLUSIVE 0x7fff0001
+/* an asynchronous request that ends with a time-out although the simulated peer answers at once and every KSI_AsyncService_run
+ * call returned KSI_OK: the reply (or the request) was lost silently inside the client - not an error report of the failed allocation */
+static int g_async_timeout;
+static int is_timeout_err(int e) { return e == KSI_NETWORK_RECIEVE_TIMEOUT || e == KSI_NETWORK_SEND_TIMEOUT || e == KSI_NETWORK_CONNECTION_TIMEOUT; }
 static int g_inconclusive_code;
 /* ---- verification under each policy: a world with an anchor matching the policy */
 static void su_world(int pol) {
@@ -412,6 +416,24 @@ done:
 		res = PSEUDO_INCONCLUSIVE;
 		g_inconclusive_code = (int)r->finalResult.errorCode;
 	} else if (res == KSI_OK) { if (r) out_fmt("verdict:%d:%x", (int)r->finalResult.resultCode, (int)r->finalResult.errorCode); else out_fmt("verdict:none"); }
+	KSI_PolicyVerificationResult_free(r);
+	return res;
+}
+/* verification that is inconclusive without any fault, because the extender answers with an error status / not at all
+ * (the verdict then carries a status message, which is copied into the result lists): k = policy | extender behaviour << 8.
+ * The inconclusive verdict is the fault-free RESULT here */
+static void su_world_ext(int k) {
+	su_world(k & 0xff);
+	FXS.ext_behaviour = k >> 8;
+}
+static int run_verify_na(int k) {
+	KSI_PolicyVerificationResult *r = NULL;
+	int res;
+	(void)k;
+	CK(KSI_SignatureVerifier_verify(G.policy, &G.vc, &r));
+done:
+	fault_off();
+	if (res == KSI_OK) { if (r) out_fmt("verdict:%d:%x", (int)r->finalResult.resultCode, (int)r->finalResult.errorCode); else out_fmt("verdict:none"); }
 	KSI_PolicyVerificationResult_free(r);
 	return res;
 }
@@ -936,11 +958,11 @@ static int run_async(int k) {
 		if (out != NULL) { KSI_AsyncHandle_free(out); out = NULL; continue; }   /* the left-over of an earlier failed attempt on a surviving service */
 		sn_now += 1;
 	}
-	if (out == NULL) { res = KSI_NETWORK_RECIEVE_TIMEOUT; goto done; }
+	if (out == NULL) { g_async_timeout = -1; res = KSI_NETWORK_RECIEVE_TIMEOUT; goto done; }
 	CK(KSI_AsyncHandle_getState(out, &state));
 	CK(KSI_AsyncHandle_getError(out, &err));
 	if (state == KSI_ASYNC_STATE_RESPONSE_RECEIVED) CK(KSI_AsyncHandle_getSignature(out, &s));
-	else res = err ? err : KSI_UNKNOWN_ERROR;
+	else { res = err ? err : KSI_UNKNOWN_ERROR; if (is_timeout_err(err)) g_async_timeout = err; }
 done:
 	fault_off();
 	if (res == KSI_OK) out_sig(s);
@@ -984,13 +1006,13 @@ static int run_async_multi(int k) {
 		CK(KSI_AsyncHandle_getState(out, &state));
 		CK(KSI_AsyncHandle_getError(out, &err));
 		CK(KSI_AsyncHandle_getRequestCtx(out, &tag));
-		if (state != KSI_ASYNC_STATE_RESPONSE_RECEIVED) { res = err ? err : KSI_UNKNOWN_ERROR; goto done; }
+		if (state != KSI_ASYNC_STATE_RESPONSE_RECEIVED) { res = err ? err : KSI_UNKNOWN_ERROR; if (is_timeout_err(err)) g_async_timeout = err; goto done; }
 		if ((size_t)tag < 1 || (size_t)tag > 3 || s[(size_t)tag - 1] != NULL) { res = KSI_INVALID_STATE; goto done; }
 		CK(KSI_AsyncHandle_getSignature(out, &s[(size_t)tag - 1]));
 		KSI_AsyncHandle_free(out); out = NULL;
 		got++;
 	}
-	if (got < 3) res = KSI_NETWORK_RECIEVE_TIMEOUT;
+	if (got < 3) { g_async_timeout = -1; res = KSI_NETWORK_RECIEVE_TIMEOUT; }
 done:
 	fault_off();
 	if (res == KSI_OK) for (i = 0; i < 3; i++) out_sig(s[i]);
@@ -1246,6 +1268,9 @@ static const op_t OPS[] = {
 	{"verify-pubfile", su_world, run_verify, P_PUBFILE},
 	{"verify-userpub", su_world, run_verify, P_USERPUB},
 	{"verify-general", su_world, run_verify, P_GENERAL},
+	{"verify-calendar-extender-error", su_world_ext, run_verify_na, P_CALENDAR | (FXE_ERROR_STATUS << 8)},
+	{"verify-calendar-extender-silent", su_world_ext, run_verify_na, P_CALENDAR | (FXE_NO_REPLY << 8)},
+	{"verify-general-extender-error", su_world_ext, run_verify_na, P_GENERAL | (FXE_ERROR_STATUS << 8)},
 	{"verify-default-ctx", su_verify_default, run_verify_default, 0},
 	{"verify-helper-internal", su_verify_default, run_verify_default, 1},
 	{"verify-datahash-ctx", su_verify_default, run_verify_default, 2},
@@ -1371,8 +1396,11 @@ static void inject(int o, long i, long j) {
 	cur_op = op->name; cur_i = i; cur_j = j;
 	if (vf_replaying()) fprintf(stderr, "[C19] %s: failing allocation %ld (second fault: %ld) of %ld\n", op->name, i, j, b->N);
 	op->setup(op->k);
+	g_async_timeout = 0;
 	do_run(op, i, j, &r);
 	vf_count("impl_calls", 1);
+	if (g_async_timeout) failf("lost-in-async-processing", "every KSI_AsyncService_run call returned KSI_OK and the peer answered at once, but a request %s: the failed allocation was swallowed and the request or its reply was dropped",
+	                           g_async_timeout < 0 ? "was never handed back within 90 rounds / 90 virtual seconds" : g_async_timeout == KSI_NETWORK_RECIEVE_TIMEOUT ? "ended with a receive time-out" : "ended with a send / connection time-out");
 	if (r.hits == 0) failf("fault-not-injected", "the operation made only %ld allocations (counting run: %ld)", r.n, b->N);
 	if (r.rc == KSI_OK) {
 		vf_outcome("%s:success-inessential", tag);
